@@ -74,7 +74,7 @@ IntContent(x) ==
     IN [i \in 1..(k - Len(o)) |-> 0] \o o   \* (never needs padding: o has exactly k octets)
 
 Unused(bl) == (8 - (bl % 8)) % 8       \* 8.6.2.2: number of unused bits in the final octet
-UnivTag(kind) == CASE kind = "utf8" -> 12 [] kind = "ia5" -> 22 [] kind = "graphic" -> 25 [] OTHER -> 0
+UnivTag(kind) == CASE kind = "utf8" -> 12 [] kind = "ia5" -> 22 [] kind = "graphic" -> 25 [] OTHER -> 12   \* (a Go string of no declared kind is a UTF8String: universal tag 0 is reserved)
 
 NoTag(p) == [p EXCEPT !.tag = -1]
 ErrV == << -1000000 >>        \* "the encoder must report an error"
